@@ -13,6 +13,7 @@ pub mod c11;
 pub mod c12;
 pub mod c20;
 pub mod c13;
+pub mod c15;
 pub mod c17;
 pub mod c19;
 
@@ -116,6 +117,7 @@ pub fn run(ctx: &Ctx, rep: &mut Report) {
         "C12" => c12::run(ctx, rep),
         "C20" => c20::run(ctx, rep),
         "C13" => c13::run(ctx, rep),
+        "C15" => c15::run(ctx, rep),
         "C17" => c17::run(ctx, rep),
         "C19" => c19::run(ctx, rep),
         other => rep.inconclusive(&format!("unknown property {}", other)),
